@@ -1130,6 +1130,9 @@ def fmt_pad_integral(m, mt, args, tys, dty):
     elif f.plus:
         f.out.append(43)
     f.out.extend(str_items(buf))
+    if not hasattr(f, 'calls'):
+        f.calls = []
+    f.calls.append((nn, list(str_items(prefix)), list(str_items(buf))))
     return mk_enum('Result', 'Ok', [Agg('tuple', '()', [])])
 
 
@@ -2113,3 +2116,30 @@ def str_trim_matches_char(m, mt, args, tys, dty):
         while hi > lo and char_eq(m, sl.base[hi - 1], p):
             hi -= 1
     return SliceV(sl.base, lo, hi)
+
+
+
+# Formatter option getters: harness-provided values (symbolic where the harness wants to show independence from them)
+def _fmt_opt(name, default):
+    def fn(m, mt, args, tys, dty):
+        f = deref(args[0])
+        v = getattr(f, 'opts', {}).get(name, default)
+        return v() if callable(v) else v
+    fn.__name__ = 'fmt_' + name
+    return fn
+
+
+summary(r'Formatter::width')(_fmt_opt('width', NONE))
+summary(r'Formatter::fill')(_fmt_opt('fill', 32))
+summary(r'Formatter::align')(_fmt_opt('align', NONE))
+summary(r'Formatter::sign_plus')(_fmt_opt('sign_plus', False))
+summary(r'Formatter::sign_minus')(_fmt_opt('sign_minus', False))
+summary(r'Formatter::alternate')(_fmt_opt('alternate', False))
+summary(r'Formatter::sign_aware_zero_pad')(_fmt_opt('sign_aware_zero_pad', False))
+
+
+
+@summary(r'<impl FnOnce\(.*\) -> .* as FnOnce<\(.*\)>>::call_once')
+def impl_fnonce_call(m, mt, args, tys, dty):
+    clo, tup = args
+    return call_callable(m, clo, list(tup.fields), dty)
